@@ -135,12 +135,12 @@ class C19(Prop):
         mk("wide-key-data", ["post 1 4294967296 4294967297", "post 2 4294967295 2147483648", "wait 8"])
         # the window INSIDE a wait: another thread posts between the steps of async_runtime_wait (lost wake-up when the
         # doorbell is reset after the ring was drained)
+        mk("wakeup-in-window", ["wakeup", "wbegin 4", "post 1 9 9", "wread", "wend", "wbegin 4", "wread", "wakeup", "wend",
+                                "wait 4", "wait 4"])
         mk("post-before-doorbell-read", ["post 1 7 1", "wbegin 8", "post 2 7 2", "wread", "wend", "wait 8", "wait 8"])
         mk("post-after-doorbell-read", ["post 1 7 1", "wbegin 8", "wread", "post 2 7 2", "wend", "wait 8", "wait 8"])
         mk("post-in-both-windows", ["post 1 7 1", "wbegin 1", "post 2 7 2", "wread", "post 3 7 3", "wend", "wbegin 8", "wakeup",
                                     "wread", "post 1 7 4", "wend", "wait 8", "wait 8"])
-        mk("wakeup-in-window", ["wakeup", "wbegin 4", "post 1 9 9", "wread", "wend", "wbegin 4", "wread", "wakeup", "wend",
-                                "wait 4", "wait 4"])
         mk("split-wait-misuse", ["wread", "wend", "wbegin 4", "post 1 1 1", "wbegin 4", "wend", "wait 4", "wbegin 4", "wait 4",
                                  "wend", "wread", "wread", "wend", "wait 4"])
         mk("ring-full", ["post 1 5 %d" % i for i in range(1026)] + ["wait 64"] * 17 + ["post 1 6 6", "wait 64"])
